@@ -86,3 +86,8 @@ package segment
 //@   gset okNA[idx] := vNA(verifier)
 //@   ensures result == nil ==> 0 <= idx && idx < len(ps.ASEntries)
 //@   ensures result == nil ==> vOK && vMsg == ps.ASEntries[idx].Signed && vLen == 1 + 2*idx && vUsedIA == vIA(verifier)
+
+//@ # minimum/maximum hop field expiry over the whole segment: value not interpreted (a function of the segment only)
+//@ func (*PathSegment).expiry
+//@   trusted
+//@   modifies nothing
